@@ -13,3 +13,8 @@ open RV.C19
 #print axioms setitem_deviates_iff
 #print axioms setitem_at_len_effect
 #print axioms n3_means_list
+#print axioms coll_separation
+#print axioms history_separation_partial
+#print axioms history_separation_witness
+#print axioms exShared_own_wf
+#print axioms shared_tail_witness
